@@ -19,7 +19,7 @@ pub fn plant_infinite_bounds(prob: &mut Prob, bound: f64, only_nonneg: bool) -> 
     let row_cone = prob.row_cone();
     let mut planted = 0;
     for i in 0..prob.m {
-        let nn = matches!(prob.cones[row_cone[i]], ConeSpec::Nonneg(_));
+        let nn = matches!(prob.cones[row_cone[i]], ConeSpec::Nonneg(_) | ConeSpec::Soc(1));
         if only_nonneg && !nn {
             continue;
         }
@@ -418,8 +418,11 @@ pub fn run(tier: Tier) -> RunOutcome {
     let nsolves = 1 + choose("nsolves", 2) as usize;
     let mut ops: Vec<SolveOp> = (0..nsolves)
         .map(|_| SolveOp {
-            time_limit: f64::INFINITY,
-            max_iter: 60,
+            // the user may edit public settings fields between construction and solve;
+            // the header must keep describing the problem actually being solved
+            flip_presolve: chance("flip_presolve", 1, 5),
+            flip_equil: chance("flip_equil", 1, 5),
+            ..Default::default()
         })
         .collect();
     let mut profile = ClockProfile::fine(choose("clkseed", 1 << 16) as u64);
@@ -619,10 +622,16 @@ pub fn run(tier: Tier) -> RunOutcome {
                         format!("{} solve blocks in the output for {} solves", parsed.len(), snaps4.len()),
                     ));
                 } else {
+                    let mut st = settings.clone();
                     for (k, p) in parsed.iter().enumerate() {
-                        let mut st = settings.clone();
                         st.time_limit = ops[k].time_limit;
                         st.max_iter = ops[k].max_iter;
+                        if ops[k].flip_presolve {
+                            st.presolve_enable = !st.presolve_enable;
+                        }
+                        if ops[k].flip_equil {
+                            st.equilibrate_enable = !st.equilibrate_enable;
+                        }
                         out.violations.extend(check_log(p, &snaps4[k], &st, &prob, &eff, &format!("solve #{}", k)));
                     }
                 }
